@@ -171,9 +171,8 @@ class C23(Prop):
         "for nested grids; extruded layer measures v*|dz_k| sum to v*|z_last-z_0| for monotone z. "
         "Tied to the code on every run in Q (dyadic coordinates, float results within 1e-9 relative).")
     level_note = (
-        "Proved about the models. The glue between refine_grid_1d's node bookkeeping and the per-cell "
-        "children is checked by Coq per generated case (exact Q), not proved for all inputs "
-        "(C23_refine_1d is about the children specification). NOT proved: compute_geometry of the "
+        "Proved about the models (refine_grid_1d: for all inputs the decoded output cells are the "
+        "children, C23_refine_1d_grid; its sign array is only tied). NOT proved: compute_geometry of the "
         "new grids (C19) - that a prism cell's measure is base*|dz| is checked per case in the tie; "
         "the topology built by _extrude_1d/_extrude_2d (face-node/cell-face matrices, tags) is not "
         "modelled (validity of the grid is oracle-only); structured_refinement in 2-D/3-D "
